@@ -116,7 +116,10 @@ def _pod_from_match(pod: str, m: RegexMatch) -> str:
     predicate("isPOD"),
 )
 def ruleEarlyLatePOD(ts: datetime, m: RegexMatch, p: Time) -> Time:
-    return Time(POD=_pod_from_match(p.POD, m))
+    pod = _pod_from_match(p.POD, m)
+    if pod not in pod_hours:
+        return None
+    return Time(POD=pod)
 
 
 _pods = [
